@@ -214,7 +214,65 @@ fn dead_proj() -> Proj {
 
 type TokMap = HashMap<u64, (char, u32)>;
 
+/// Shared-reference operations are executed a second time with the cache's own
+/// memory (table allocation and seal) mapped READ-ONLY: a `&self` method that
+/// writes - even if it restores what it wrote, so that no before/after comparison
+/// can see it - dies with SIGSEGV. The step number is kept in a file while the
+/// protection is on, so that the parent process can tell why the child died.
+pub struct RoGuard {
+    pub file: std::fs::File,
+    pub windows: u64
+}
+
+fn page_span(start: usize, end: usize) -> (usize, usize) {
+    let page = 4096usize;
+    (start & !(page - 1), (end + page - 1) & !(page - 1))
+}
+
+impl RoGuard {
+    fn mark(&mut self, n: u64) {
+        use std::io::{Seek, SeekFrom, Write};
+        let _ = self.file.seek(SeekFrom::Start(0));
+        let _ = write!(self.file, "{:<20}", n);
+    }
+
+    /// Runs `f` (which must not allocate and must not write to the heap itself)
+    /// while the cache's memory is read-only.
+    fn with_protected<F: FnOnce()>(&mut self, cache: &Cache, step: u64, f: F) {
+        let snap = cache.verif_snapshot();
+        let mut spans: Vec<(usize, usize)> = Vec::with_capacity(2);
+        spans.push(page_span(snap.seal, snap.seal + snap.stride));
+
+        if snap.buckets > 1 && snap.stride > 0 {
+            let start = snap.table - snap.buckets * snap.stride;
+            let end = snap.table + snap.buckets + 16;
+            spans.push(page_span(start, end));
+        }
+
+        drop(snap);
+        self.mark(step);
+        self.windows += 1;
+
+        unsafe {
+            for (a, b) in spans.iter() {
+                libc::mprotect(*a as *mut libc::c_void, b - a, libc::PROT_READ);
+            }
+        }
+
+        f();
+
+        unsafe {
+            for (a, b) in spans.iter() {
+                libc::mprotect(*a as *mut libc::c_void, b - a, libc::PROT_READ | libc::PROT_WRITE);
+            }
+        }
+
+        self.mark(0);
+    }
+}
+
 pub struct Session {
+    pub roguard: Option<RoGuard>,
     pub cfg: Config,
     pub hb: HB,
     pub caches: BTreeMap<u32, Cache>,
@@ -239,6 +297,7 @@ impl Session {
     pub fn new(cfg: Config) -> Session {
         let hb = HB::from_name(&cfg.hasher, cfg.seed).expect("unknown hasher");
         Session {
+            roguard: None,
             cfg,
             hb,
             caches: BTreeMap::new(),
@@ -263,18 +322,22 @@ impl Session {
             if let Some((kind, k)) = m.get(&tok) {
                 return marker(&kind.to_string(), *k as i64);
             }
-
-            if let Some(o) = reg_origin(tok) {
-                if let Some((kind, k)) = m.get(&o) {
-                    return marker(&format!("C{}", kind), *k as i64);
-                }
-            }
         }
 
+        // an object held by another cache before the call
         for (d, m) in self.prev.iter() {
             if *d != c {
                 if let Some((kind, k)) = m.get(&tok) {
                     return marker(&format!("X{}", kind), (*k as i64) * 100 + *d as i64);
+                }
+            }
+        }
+
+        // a fresh clone of an object of this cache
+        if let Some(m) = self.prev.get(&c) {
+            if let Some(o) = reg_origin(tok) {
+                if let Some((kind, k)) = m.get(&o) {
+                    return marker(&format!("C{}", kind), *k as i64);
                 }
             }
         }
@@ -322,6 +385,9 @@ impl Session {
         }
 
         let mut created: Option<(u32, Cache)> = None;
+        // allocation-failure sweep: refuse exactly the n-th allocation of a try_reserve
+        let alloc_nth: u32 = if crash_kind == "alloc" { crash_n } else { 0 };
+        let mut refusals: usize = 0;
 
         let result = {
             let caches = &mut self.caches;
@@ -329,6 +395,7 @@ impl Session {
             let argk = &mut argk;
             let argv = &mut argv;
             let created = &mut created;
+            let refusals = &mut refusals;
             let crash_after = crash_kind == "closure_after";
 
             catch_unwind(AssertUnwindSafe(move || -> CallOut {
@@ -394,6 +461,20 @@ impl Session {
                         if a != 0 { out.handed.push(a); }
                         if b != 0 { out.handed.push(b); }
                     }
+                    return out;
+                }
+
+                if name == "clone_from" {
+                    // d.clone_from(&c): take d out of the map for the duration of the call
+                    let mut target = match caches.remove(&d) {
+                        Some(cache) => cache,
+                        None => { out.ret = ret_json("nocache"); return out; }
+                    };
+                    match caches.get(&c) {
+                        Some(source) => target.clone_from(source),
+                        None => out.ret = ret_json("nocache")
+                    }
+                    *created = Some((d, target));
                     return out;
                 }
 
@@ -604,11 +685,15 @@ impl Session {
                     "clear" => cache.clear(),
                     "reserve" => cache.reserve(n),
                     "try_reserve" => {
-                        if fl {
+                        if alloc_nth > 0 {
+                            alloc::refuse_nth(alloc_nth as usize);
+                        }
+                        else if fl {
                             alloc::refuse_from(1);
                         }
                         let r = cache.try_reserve(n);
                         let refused = alloc::allow_all();
+                        *refusals = refused;
                         out.ret = match r {
                             Ok(()) => ret_json("Ok"),
                             Err(hashbrown::TryReserveError::CapacityOverflow) =>
@@ -710,6 +795,51 @@ impl Session {
                 out
             }))
         };
+
+        // ---- read-only re-execution of shared-reference operations (C19)
+        if self.roguard.is_some() && crash_kind.is_empty() {
+            let opname = a["op"].as_str().unwrap_or("");
+            let step = self.step;
+            if let (Some(cache), Some(g)) = (self.caches.get(&c), self.roguard.as_mut()) {
+                let bb = std::hint::black_box::<u64>;
+                match opname {
+                    "peek" => g.with_protected(cache, step, || {
+                        bb(cache.peek(&KeyId(k)).map(|v| v.tok).unwrap_or(0));
+                        bb(cache.peek(&TKey::probe(k)).map(|v| v.tok).unwrap_or(0));
+                    }),
+                    "peek_entry" => g.with_protected(cache, step, || {
+                        bb(cache.peek_entry(&KeyId(k)).map(|(kk, _)| kk.tok).unwrap_or(0));
+                        bb(cache.peek_entry(&TKey::probe(k)).map(|(kk, _)| kk.tok).unwrap_or(0));
+                    }),
+                    "contains" => g.with_protected(cache, step, || {
+                        bb(cache.contains(&KeyId(k)) as u64);
+                        bb(cache.contains(&TKey::probe(k)) as u64);
+                    }),
+                    "peek_lru" => g.with_protected(cache, step, || {
+                        bb(cache.peek_lru().map(|(kk, _)| kk.tok).unwrap_or(0));
+                    }),
+                    "peek_mru" => g.with_protected(cache, step, || {
+                        bb(cache.peek_mru().map(|(kk, _)| kk.tok).unwrap_or(0));
+                    }),
+                    "len" | "is_empty" | "current_size" | "max_size" | "capacity" =>
+                        g.with_protected(cache, step, || {
+                            bb(cache.len() as u64 + cache.is_empty() as u64 + cache.current_size() as u64
+                                + cache.max_size() as u64 + cache.capacity() as u64);
+                        }),
+                    "iter" | "keys" | "values" | "debug" => g.with_protected(cache, step, || {
+                        let mut s = 0u64;
+                        for (kk, v) in cache.iter() { s = s.wrapping_add(kk.tok ^ v.tok); }
+                        for (kk, v) in cache.iter().rev() { s = s.wrapping_add(kk.tok ^ v.tok); }
+                        for kk in cache.keys() { s = s.wrapping_add(kk.tok); }
+                        for v in cache.values().rev() { s = s.wrapping_add(v.tok); }
+                        let mut it = cache.iter();
+                        while let (Some(x), Some(y)) = (it.next(), it.next_back()) { s ^= x.0.tok ^ y.1.tok; }
+                        bb(s);
+                    }),
+                    _ => { }
+                }
+            }
+        }
 
         let fired = disarm();
         let refused_left = alloc::allow_all();
@@ -828,9 +958,15 @@ impl Session {
             "i": self.step,
             "c": c,
             "d": d,
-            "a": a.clone(),
+            "a": if alloc_nth > 0 {
+                // the model's `fl` = the allocator refused something during this call
+                let mut a2 = a.clone();
+                a2["fl"] = json!(refusals > 0);
+                a2
+            } else { a.clone() },
             "ret": ret,
             "dropped": dropped,
+            "alloc_nth": alloc_nth,
             "handed": handed,
             "counts": {"hash": cnt[0], "eq": cnt[1], "clone": cnt[2], "size": cnt[3], "closure": cnt[4]},
             "panic": panic_json,
@@ -1090,6 +1226,9 @@ pub fn self_facets(ev: &Value) -> Vec<(String, Value, Value)> {
         .map(|v| v.iter().map(|n| n[1].clone()).collect()).unwrap_or_default();
     let es: Vec<Value> = act_rows.iter().map(|r| r[3].clone()).collect();
     eq("bound", json!(true), json!(dec(&st["cur"]) <= dec(&st["max"])));
+    let held: i64 = es.iter().map(|v| v.as_i64().unwrap_or(0)).sum();
+    let max_raw = st["max"].as_i64().unwrap_or(0);
+    eq("bound_held", json!(true), json!(max_raw < 0 || held <= max_raw));
     eq("es_eq_rec", json!(es), json!(recs));
     eq("sum_rec", st["cur"].clone(), json!(recs.iter().map(|v| v.as_i64().unwrap_or(0)).sum::<i64>()));
     eq("len", json!(act_rows.len()), st["len"].clone());
